@@ -57,8 +57,21 @@ def _install_wrappers():
         cls.__init__ = make(orig)
 
 
+class Str(str):
+    """a string type of the caller's own (strings read from a file or built by a library are often subclasses of
+    str): the API must treat it like any other string"""
+    __slots__ = ()
+
+
 def s_of_tok(t):
     return '' if t == '-' else ''.join(chr(int(x)) for x in t.split(','))
+
+
+def name_of_tok(t):
+    """a name or string value handed to the API: one time in three as an instance of a subclass of str (chosen
+    from the text, so replays agree)"""
+    s = s_of_tok(t)
+    return Str(s) if (len(t) + (int(t.split(',')[-1]) if t != '-' else 0)) % 3 == 0 else s
 
 
 def tok_of_s(s):
@@ -69,7 +82,7 @@ def val_of_tok(t):
     if t == 'n':
         return None
     if t[0] == 's':
-        return s_of_tok(t[2:])
+        return name_of_tok(t[2:])
     if t[0] == 'i':
         return int(t[2:])
     if t[0] == 'b':
@@ -355,7 +368,7 @@ class World:
             n = self.obj(t[1])
             n.top_instance = None if t[2] == 'N' else self._at(t[2][1:])
         elif o == 'setname':
-            self.obj(t[1]).name = None if t[2] == '~' else s_of_tok(t[2])
+            self.obj(t[1]).name = None if t[2] == '~' else name_of_tok(t[2])
         elif o == 'delname':
             del self.obj(t[1]).name
         elif o == 'dset':
